@@ -173,6 +173,7 @@ class P(Prop):
         ("TracklibVerif.Props.C18", "TV.C18.match_fdtw_history", "the same for FDTW under the hypotheses of match_fdtw_correct"),
         ("TracklibVerif.Props.C18", "TV.C18.session_history_irrelevant", "a whole session of match / compare calls (DTW, FRECHET) on shared objects, results reused as first or second argument: every call returns what it returns on copies that never went through match"),
         ("TracklibVerif.Props.C18", "TV.C18.links_read_back", "reading the pair lists of the returned track observation by observation gives exactly the coupling S, first pair first (same pairs, order, multiplicity); the number of stored links is nb_links"),
+        ("TracklibVerif.Props.C18", "TV.C18.features_read_back", "on the track _dtw returns, observation j holds in pair its partners in coupling order and in diff / ex / ey the distance and coordinate differences to the LAST of them"),
         ("TracklibVerif.Props.C18", "TV.C18.fdtw_links_read_back", "the same for _fdtw under the hypotheses of fdtw_equal"),
         ("TracklibVerif.Props.C18", "TV.C18.compare_value", "compare(track1, track2, DTW | FDTW | FRECHET, p) is match followed by: the score for FRECHET, p = inf, p = 0; (score/nb_links)**(1/p) otherwise; errors are those of match"),
         ("TracklibVerif.Props.C18", "TV.C18.compare_correct", "compare in the modes DTW / FRECHET on non-empty tracks over an ordered field: succeeds; FRECHET / p = inf: the discrete Frechet distance (least over couplings of the largest link); finite p: (score/nb_links)**(1/p) with score the optimum and max(n1,n2) <= nb_links <= n1+n2-1 the length of the returned optimal coupling"),
